@@ -86,6 +86,9 @@ def machine(d, by_name, has_builder=False):
     L = ['struct M_%s(%s);' % (name, name), 'impl Machine for M_%s {' % name,
          '    fn reset(&mut self, r0: u128) { self.0 = %s::new_with_raw_value(%s); }' % (name, to_base(d, 'r0')),
          '    fn raw(&self) -> u128 { %s }' % base_to_u128(d, 'self.0.raw_value()'),
+         # the storage integer behind the (single-field, Copy) struct, read through its memory: the field is private
+         '    fn store(&self) -> u128 { assert_eq!(core::mem::size_of::<%s>(), core::mem::size_of::<u%d>()); '
+         '(unsafe { core::mem::transmute_copy::<%s, u%d>(&self.0) }) as u128 }' % (name, storage(d['base']), name, storage(d['base'])),
          '    fn get(&self, f: usize, i: usize) -> (u8, u128) {', '        match f {']
     for k, f in enumerate(d['fields']):
         if 'r' in f['acc']:
@@ -157,6 +160,7 @@ use std::panic::{self, AssertUnwindSafe};
 trait Machine {
     fn reset(&mut self, r0: u128);
     fn raw(&self) -> u128;
+    fn store(&self) -> u128;
     fn get(&self, f: usize, i: usize) -> (u8, u128);
     fn with(&mut self, f: usize, i: usize, v: u128);
     fn set(&mut self, f: usize, i: usize, v: u128);
@@ -193,6 +197,8 @@ fn main() {
             "N" => { let r0 = hex(it.next().unwrap()); m.as_mut().unwrap().reset(r0); writeln!(out, "N").unwrap(); }
             "R" => { let mm = m.as_ref().unwrap();
                      match panic::catch_unwind(AssertUnwindSafe(|| mm.raw())) { Ok(x) => writeln!(out, "{:x}", x).unwrap(), Err(_) => writeln!(out, "P").unwrap() } }
+            "I" => { let mm = m.as_ref().unwrap();
+                     match panic::catch_unwind(AssertUnwindSafe(|| mm.store())) { Ok(x) => writeln!(out, "{:x}", x).unwrap(), Err(_) => writeln!(out, "P").unwrap() } }
             "G" => { let f: usize = it.next().unwrap().parse().unwrap(); let i: usize = it.next().unwrap().parse().unwrap();
                      let mm = m.as_ref().unwrap();
                      match panic::catch_unwind(AssertUnwindSafe(|| mm.get(f, i))) {
